@@ -36,6 +36,7 @@ type Encoder struct {
 	w             *World
 	c             *Ctx
 	sorts         map[string]*Sort
+	tracked       []trackedObj // objects allocated by the function under verification (see restoreFrame)
 	assumptions   []*Term
 	obls          []*Obligation
 	cur           *State
@@ -612,7 +613,7 @@ func (e *Encoder) stringConst(s string, t types.Type) *SVal {
 	c := e.c
 	// each literal gets its own object; contents are not modelled except length
 	base := c.Sym("strlit."+fmt.Sprintf("%x", hashStr(s)), RefS)
-	return &SVal{K: KString, Typ: t, Base: base, Off: c.BVLit(0, 64), Len: c.BVLit(uint64(len(s)), 64)}
+	return &SVal{K: KString, Typ: t, Base: base, Off: c.BVLit(0, 64), Len: c.BVLit(uint64(len(s)), 64), Str: &s}
 }
 
 func hashStr(s string) uint32 {
@@ -637,6 +638,9 @@ func (e *Encoder) instr(fr *frame, b *ssa.BasicBlock, in ssa.Instruction) {
 		a := e.cellAddr(ref, pt)
 		e.store(e.cur, a, e.zero(pt))
 		fr.vals[x] = e.ptrTo(a)
+		if e.pure == 0 && len(e.loopRefSyms) == 0 {
+			e.tracked = append(e.tracked, trackedObj{ref, pt})
+		}
 	case *ssa.FieldAddr:
 		p := e.val(fr, x.X)
 		e.nilCheck(fr, p, x.X, "field "+x.X.Name(), x.Pos())
